@@ -57,6 +57,10 @@ def gen_vars(rng, names=('x', 'y', 'z')):
             sch['_divider'] = 'set'
         elif r < 0.36:
             sch['_divider'] = 'null'
+        elif r < 0.44:
+            # a divider whose two shares differ (deterministically): the daughters must not get the same share
+            sch = {'_default': {k: i + 1 for i, k in enumerate(rng.sample(['a', 'b', 'c', 'd'], rng.choice([1, 2, 3])))},
+                   '_updater': 'set', '_divider': 'split_dict'}
         out[v] = sch
     return out
 
